@@ -366,7 +366,7 @@ def run(ctx):
         raise SystemExit(2)
 
     if quick:
-        args = "-seed %d -ndir 400 -nplan 150 -ntrace 2 -tracelen 40 -engines pebble,rocksdb,mem -k1 "" -k1mb 32" % ctx.seed
+        args = "-seed %d -ndir 400 -nplan 150 -ntrace 2 -tracelen 40 -engines pebble,rocksdb,mem -k1 none" % ctx.seed
     else:
         args = "-seed %d -ndir 6000 -nplan 1500 -ntrace 14 -tracelen 70 -engines pebble,rocksdb,mem -k1 pebble,rocksdb,mem -k1mb 48" % ctx.seed
     runs = []
